@@ -222,7 +222,9 @@ func c09Body(nWork int) explore.Body {
 				got, finished := lexWatched(mk(data), lo, 20*time.Second)
 				what := fmt.Sprintf("lexer(validate=%v,seekable=%v,attachment callback=%v)", validate, seekable, vi != 2)
 				if !finished {
-					return vio("C09:lexer-hang", "%s neither returned end-of-file nor an error within 20 s%s", what, ctxs)
+					v := vio("C09:lexer-hang", "%s neither returned end-of-file nor an error within 20 s%s", what, ctxs)
+					v.Poison = true
+					return v
 				}
 				if got.Panic != "" {
 					return vio("C09:lexer-panic", "%s panicked: %s%s", what, got.Panic, ctxs)
